@@ -43,7 +43,7 @@ impl Encoder {
         self.u8(prefix);
         let address_length_index = self.bytes.len();
         self.u8(0);
-        self.rr_address_with_prefix(address, prefix);
+        self.rr_address_without_trailing_zeros(address);
         self.set_address_length_index(apitem.negation, address_length_index)
     }
 
